@@ -145,24 +145,74 @@ func Walk(root string, fn filepath.WalkFunc) error {
 	})
 }
 
-func Glob(pattern string) ([]string, error) {
+// Glob follows path/filepath.Glob step by step (pattern check first, metacharacters in
+// directory elements expanded recursively) over the simulated disk.
+func Glob(pattern string) ([]string, error) { return globWithLimit(pattern, 0) }
+
+func hasMeta(p string) bool { return strings.ContainsAny(p, `*?[\\`) }
+
+func globWithLimit(pattern string, depth int) (matches []string, err error) {
+	if depth == 10000 {
+		return nil, filepath.ErrBadPattern
+	}
+	if _, err := filepath.Match(pattern, ""); err != nil {
+		return nil, err
+	}
+	if !hasMeta(pattern) {
+		if _, err = simos.Lstat(pattern); err != nil {
+			return nil, nil
+		}
+		return []string{pattern}, nil
+	}
 	dir, file := filepath.Split(pattern)
-	if dir == "" {
+	switch dir {
+	case "":
 		dir = "."
+	case "/":
+	default:
+		dir = dir[:len(dir)-1]
+	}
+	if !hasMeta(dir) {
+		return globDir(dir, file, nil)
+	}
+	if dir == pattern {
+		return nil, filepath.ErrBadPattern
+	}
+	m, err := globWithLimit(dir, depth+1)
+	if err != nil {
+		return nil, err
+	}
+	for _, d := range m {
+		matches, err = globDir(d, file, matches)
+		if err != nil {
+			return
+		}
+	}
+	return
+}
+
+func globDir(dir, pattern string, matches []string) ([]string, error) {
+	fi, err := simos.Stat(dir)
+	if err != nil || !fi.IsDir() {
+		return matches, nil
 	}
 	ents, err := simos.ReadDir(dir)
 	if err != nil {
-		return nil, nil
+		return matches, nil
 	}
-	var out []string
+	names := make([]string, 0, len(ents))
 	for _, e := range ents {
-		ok, err := filepath.Match(file, e.Name())
+		names = append(names, e.Name())
+	}
+	sort.Strings(names)
+	for _, n := range names {
+		ok, err := filepath.Match(pattern, n)
 		if err != nil {
-			return nil, err
+			return matches, err
 		}
 		if ok {
-			out = append(out, filepath.Join(dir, e.Name()))
+			matches = append(matches, filepath.Join(dir, n))
 		}
 	}
-	return out, nil
+	return matches, nil
 }
